@@ -12,6 +12,13 @@ NOTE_COMMON = ("Trusted base: go/packages + go/types type-check of /repo's worki
 
 # id -> (technique, level text, level note, design ref)
 CLAIMS = {
+    "C13": (
+        "gate dominance: privileged effects located by what they write (field writes, callee summaries), privilege clauses derived from dominating branch conditions (De Morgan, local boolean definitions resolved, clause subsumption), path rules over the JOIN else-if chain (every path from the channel-exists edge to the membership insert passes the ban / invite / captcha / key test), dispatch-key analysis for services commands",
+        "Decides, for the code shape, that every privileged state change in client-reachable code is dominated by its privilege test on the granting edge (chanop|oper + membership for channel settings, membership and !+t|chanop for topics, chanop for kicks, "
+        "membership and !+i|chanop for invites, self|oper for user modes, oper for KILL/GLINE/network notices, authOper's name-and-password match for operator status, the configured services password for server status, "
+        "ban/invite/captcha/key tests on every path into an existing channel, server_ keys only addressable under s.Server, captcha MAC/prefix/age). Does not decide that the privilege bits are right at that moment (history; C14 keeps them consistent).",
+        NOTE_COMMON,
+        "DESIGN.md section 3, C13"),
     "C11": (
         "edge-dominance facts at the gate's success return (header read, non-empty, secret of the parsed id fetched without error, compared equal), who-reads of the secret, def-use of every session id reaching IRC state or a proposal in DispatchPublic's call closure, filter dominance at the encode site, who-may-call / closed world of routes over the whole module",
         "Decides the code shape of authentication for every route and every path: a route that reaches session data or an admin action without passing the credential comparison cannot exist in a tree that passes "
